@@ -1900,9 +1900,9 @@ def run_hold(case, wait=0.15):
 
         def wait_for_params(self):
             # the link of a member in case['drop'] went down between `connected` and `fully_connected`: the signal
-            # this call waits for never comes (the harness gives up after 5 s)
+            # this call waits for never comes (the harness gives up after 9 s)
             if self.uri in drop:
-                release.wait(5.0)
+                release.wait(9.0)
 
         def close_link(self):
             with lock:
@@ -1962,11 +1962,11 @@ def run_hold(case, wait=0.15):
 def check_open_drop(case):
     """open_links with members whose link dropped before fully_connected: must come back in bounded time; on any
     member failure every link is closed and the failure raised."""
-    r = run_hold(case, wait=0.6)
+    r = run_hold(case, wait=4.0)     # generous: a loaded machine must not turn scheduling delay into an alarm
     if not r['returned_while_held']:
         return {'class': 'open_links_blocked_after_link_drop', 'case': case, 'expected': 'open_links returns or raises',
                 'observed': {k: r.get(k) for k in ('outcome', 'closes', 'alive')},
-                'detail': 'open_links did not come back within 0.6 s although every open_link() had returned or raised'}
+                'detail': 'open_links did not come back within 4 s although every open_link() had returned or raised'}
     want = 'Raised' if case['failing'] else 'Returned'
     if r.get('outcome') != want:
         return {'class': 'failure_not_raised' if want == 'Raised' else 'raises_without_failure', 'case': case, 'expected': want, 'observed': r}
